@@ -718,4 +718,5 @@ ASSUMPTIONS = [
     "the search samples consumption schedules; a clean batch is evidence, not proof",
 ]
 STUB_NOTE = ""
+STATE_MEASURE = 'progress vector of all lazy results of the run (items consumed, exhausted or not, per result)'
 FAMILY_STARTS = [0]
